@@ -1483,6 +1483,7 @@ class ktensor:
         [[ 0.70710678...  0.70710678...]
          [ 0.70710678... -0.70710678...]]
         """
+        assert 0 <= n < self.ndims, "Mode must be in [0, self.ndims)"
         M = self.weights[:, None] @ self.weights[:, None].T
         for i in range(self.ndims):
             if i != n:
